@@ -406,7 +406,7 @@ impl Tree {
     }
     /// Set the free counter to zero if it is large enough for synchronization
     fn sync_steal(self, min: usize) -> Option<Self> {
-        if self.reserved() && self.free() > min {
+        if self.reserved() && self.free() >= min {
             Some(self.with_free(0))
         } else {
             None
